@@ -385,27 +385,42 @@ package syncer
 //@   arith int
 //@   properties C20
 //@   requires nonnil: rs != nil
-//@   modifies rs.skippedKey
-//@   ensures cleared: rs.skippedKey == ""
+//@   modifies rs.skippedKey, rs.skipping
+//@   ensures cleared: forall k string :: !(rs.skipping && rs.skippedKey == k)
 
 //@ func bisyncRdbReplayState.skipKey
 //@   arith int
 //@   properties C20
 //@   requires nonnil: rs != nil
-//@   modifies rs.skippedKey
-//@   ensures recorded: key != "" ==> rs.skippedKey == key
+//@   modifies rs.skippedKey, rs.skipping
+//@   ensures recorded_whatever_the_key: rs.skipping && rs.skippedKey == key
 
 //@ func bisyncRdbReplayState.shouldSkip
 //@   arith int
 //@   properties C20
 //@   requires nonnil: rs != nil
 //@   modifies nothing
-//@   ensures exact: result <==> (key != "" && rs.skippedKey == key)
+//@   ensures exact: result <==> (rs.skipping && rs.skippedKey == key)
+
+//@ func RedisOutput.bisyncRdbTargetKey
+//@   arith int
+//@   properties C20
+//@   requires nonnil: ro != nil
+//@   modifies nothing
+
+// every entry but functions and aux fields is the value of a key - the empty string is a key too
+//@ func bisyncRdbEntryHasKey
+//@   arith int
+//@   properties C20
+//@   requires nonnil: e != nil && e.ObjectParser != nil
+//@   modifies nothing
+//@   ensures by_object_class_not_by_key_length: result <==> (rdb.SpecObjType(e.ObjectParser) != rdb.RdbObjectFunction && rdb.SpecObjType(e.ObjectParser) != rdb.RdbObjectAux)
 
 //   probedB  result of the EXISTS probe (-1 none, 0 absent, 1 present); policyB the policy in force at the probe
 //@ func RedisOutput.buildBisyncRdbReplayUnit
 //@   arith int
 //@   properties C20 C10
+//@   replay syncer_bisyncEmptyKey
 //@   opaque SpecNsKey
 //@   ensures the_tools_own_bookkeeping_keys_are_never_replayed [C10]: e != nil && old(SpecNsKey(string(e.Key))) ==> result0 == nil && result1 && result2 == nil
 //@   ghost var probedB mathint = 0 - 1
